@@ -84,7 +84,7 @@ void adapter_exec(Ev *ev)
             obs(ev, (long long)b.offset); obs(ev, (long long)b.used); obs(ev, -7);
             put_prefix(ev, &lpb.prefix); obs(ev, -7);
             obs(ev, (long long)(lpb.payload.data - blk)); obs(ev, (long long)(lpb.payload.used - lpb.payload.offset));
-        }
+        } else { obs(ev, (long long)b.offset); obs(ev, (long long)b.used); }
         xfree(blk);
         return;
     }
